@@ -84,7 +84,46 @@ where
 }
 
 /// Marks the current thread as blocked
+/// Implements `thread::park`.
+///
+/// The park token of a thread is a `Notify` owned by that thread: `unpark`
+/// stores the token (and the unparker's causality) whatever the target is
+/// doing - running, yielded or blocked on some other object - and only a thread
+/// that is blocked in `park` is woken by it. Both operations are scheduling
+/// points that the DPOR algorithm sees as accesses to the same object.
 pub(crate) fn park(location: Location) {
+    park_token(None).wait(location);
+}
+
+/// Implements `Thread::unpark`.
+pub(crate) fn unpark(thread: thread::Id, location: Location) {
+    park_token(Some(thread)).notify(location);
+}
+
+/// Returns the park token of `thread` (the active thread if `None`), creating
+/// it on first use.
+fn park_token(thread: Option<thread::Id>) -> Notify {
+    let existing = execution(|execution| {
+        let thread = thread.unwrap_or_else(|| execution.threads.active_id());
+        execution.threads[thread].park_token
+    });
+
+    if let Some(token) = existing {
+        return token;
+    }
+
+    let token = Notify::new(false, false);
+
+    execution(|execution| {
+        let thread = thread.unwrap_or_else(|| execution.threads.active_id());
+        *execution.threads[thread].park_token.get_or_insert(token)
+    })
+}
+
+/// Blocks the current thread until another thread makes it runnable again with
+/// `thread::Set::unpark`. Used by `Condvar`; `thread::park` has its own token
+/// (see `park`).
+pub(crate) fn block_until_unparked(location: Location) {
     let switch = execution(|execution| {
         use thread::State;
         let thread = execution.threads.active_id();
